@@ -82,14 +82,14 @@ func scenC07(w *vsim.World, spec *vsim.Spec) {
 	block := mkBlock(3, 1+w.Choose("size", 50))
 	hash := md5hex(block)
 	type probe struct {
-		kind int // 0 as-is 1 wrong token 2 perturb one char 3 extra hints around 4 signature removed 5 no token 6 uppercase signature
+		kind int // 0 as-is 1 wrong token 2 perturb one char 3 extra hints around 4 signature removed 5 no token 6 uppercase signature 7 signed by the reference with an expiry across the whole 8-hex-digit range
 		pos  int
 		chr  int
 		adv  int // advance the clock first: 0 none, 1 to expiry-2s, 2 to expiry+2s, 3 small
 	}
 	var plan []probe
 	for len(plan) < 12 && (len(plan) == 0 || w.Choose("more", 6) != 0) {
-		plan = append(plan, probe{kind: w.Choose("probe-kind", 7), pos: w.Choose("pos", 60), chr: w.Choose("chr", 16), adv: w.Choose("advance", 4)})
+		plan = append(plan, probe{kind: w.Choose("probe-kind", 8), pos: w.Choose("pos", 60), chr: w.Choose("chr", 16), adv: w.Choose("advance", 4)})
 	}
 	// concurrent signers and verifiers: the signing code is lock-free; with statement-level
 	// preemption (rule R9 in blob_signature.go) its unsynchronised sections interleave
@@ -225,6 +225,12 @@ func scenC07(w *vsim.World, spec *vsim.Spec) {
 				loc = loc[:strings.Index(loc, "+A")]
 			case 5:
 				tok = ""
+			case 7:
+				// any expiry an 8-digit field can carry: what the API server signs, keepstore must accept
+				far := []int64{0x7fffffff, 0x80000000, 0x9abcdef0, 0xffffffff, 0x7ffffffe, time.Now().Unix() + 40*365*86400}[p.chr%6]
+				hx := fmt.Sprintf("%08x", far)
+				loc = fmt.Sprintf("%s+%d+A%s@%s", hash, len(block), refSignature(key, hash, token, hx, ttl), hx)
+				w.Probe("far-future-expiry")
 			case 6:
 				i0 := strings.Index(loc, "+A") + 2
 				loc = loc[:i0] + strings.ToUpper(loc[i0:i0+40]) + loc[i0+40:]
@@ -268,8 +274,11 @@ func scenC07(w *vsim.World, spec *vsim.Spec) {
 			}
 		}
 		// ride-along (pure): SignLocator / VerifySignature / SignManifest against the reference
-		for _, t := range tokens {
+		for ti, t := range tokens {
 			expT := time.Now().Add(ttl)
+			if ti > 0 { // expiries across the whole range of the 8-digit field
+				expT = time.Unix([]int64{0, 0x7fffffff, 0x80000000, 0xffffffff}[ti%4], 0)
+			}
 			got := arvados.SignLocator(hash+"+5", t, expT, ttl, []byte(key))
 			want := fmt.Sprintf("%s+5+A%s@%08x", hash, refSignature(key, hash, t, fmt.Sprintf("%08x", expT.Unix()), ttl), expT.Unix())
 			if got != want {
